@@ -36,11 +36,20 @@ def run_c12(tier, seed):
         raise ToolError("TLC failed on AuthGate:\n" + common.tlc_tail(r))
     cpath = os.path.join(OUT, "auth_cases.json")
     json.dump(cases, open(cpath, "w"))
-    rpath = os.path.join(OUT, "auth_report.json")
-    p = common.run_vh(["auth", cpath, rpath], timeout=1800)
-    if p.returncode == 2:
-        raise ToolError("vh auth failed: " + p.stderr[-2000:])
-    rep = json.load(open(rpath))
+    import concurrent.futures
+
+    def half(which):
+        rpath = os.path.join(OUT, "auth_report_%s.json" % which)
+        p = common.run_vh(["auth", cpath, rpath, which], timeout=1800)
+        if p.returncode == 2:
+            raise ToolError("vh auth failed: " + p.stderr[-2000:])
+        return json.load(open(rpath))
+
+    with concurrent.futures.ThreadPoolExecutor(max_workers=2) as ex:
+        halves = list(ex.map(half, ["on", "off"]))
+    rep = {"cases": sum(h["cases"] for h in halves), "expected_executed": sum(h["expected_executed"] for h in halves),
+           "expected_refused": sum(h["expected_refused"] for h in halves),
+           "violations": halves[0]["violations"] + halves[1]["violations"], "samples": halves[0]["samples"][:3] + halves[1]["samples"][:3]}
     for viol in rep["violations"]:
         c = viol["case"]
         sig = "auth:%s:%s:%s:%s:%s" % (c["method"], c["form"], c["header"], "on" if c["auth"] else "off", c.get("transport", "http"))
